@@ -393,7 +393,7 @@ def build(path, mutate=None):
                 continue
             for g in re.findall(r'\bG_\w+', decl_line):
                 uses = [x for x in re.finditer(r'(?<![\w.>])%s\b' % re.escape(g), body)]
-                assigned = any(re.match(r'\s*(\[[^\]]*\])*\s*(=[^=]|\+\+|--|\+=|-=|\.|->)', body[x.end():x.end() + 40]) or re.search(r'(&|\+\+|--)\s*$', body[max(0, x.start() - 4):x.start()]) for x in uses if not (m.start() <= x.start() < m.start() + len(decl_line)))
+                assigned = any(re.match(r'\s*(\[[^\]]*\])*\s*(=[^=]|\+\+|--|\+=|-=|\.|->)', body[x.end():x.end() + 40]) or re.search(r'((?<!&)&|\+\+|--)\s*$', body[max(0, x.start() - 4):x.start()]) for x in uses if not (m.start() <= x.start() < m.start() + len(decl_line)))
                 if not assigned:
                     raise cxx.ExtractError('plain-pipeline unit declares ghost %s but never assigns it (it would be the constant 0)' % g)
     return u
